@@ -1,5 +1,6 @@
 //! tu-verif: bounded-exhaustive model checking harness for ad-freiburg/text-utils.
 //! See /verif/DESIGN.md.
+pub mod countsched;
 pub mod enumerate;
 pub mod guard;
 pub mod refs;
